@@ -132,7 +132,7 @@ def run(ck):
     # ---------------- R3 ----------------
     h = lib.single(prog, T + "handleIncoming")
     discs = [e for e in h.calls(lambda e: (e.get("callee") or "") == T + "handlePeerDisconnection")]
-    ck.require(len(discs) >= 2, "disconnect arms in handleIncoming: %d" % len(discs))
+    ck.require(len(discs) >= 1, "disconnect arms in handleIncoming: %d" % len(discs))
     for i, e in enumerate(discs):
         after = cfg.events_after(h, e)
         bad = [x for x in after if x["k"] == "call" and (x.get("callee") or "") == "Pistache::Tcp::Handler::onInput"]
